@@ -72,6 +72,18 @@ def cases(tier, seed, args):
         for i in range(4 if q else 24):
             out.append(dict(t='perm_mm', kind='gmm', L=[], K=2, D=2 + i % 2, N=60, wca=(-1,), iterations=[3, 5][i % 2],
                             seed=int(rng.integers(1 << 30)), sam=False, saliency=False, regime='badscale'))
+        # hard start in which one class is empty (not the last one): its scatter is exactly zero in the first M-step
+        for i in range(6 if q else 36):
+            kind = ['cacgmm', 'gcacgmm', 'cacgmm', 'cacgmm', 'cacgmm', 'cwmm'][i % 6]   # (an empty vMF class has no mean: outside the domain)
+            nlead = 1 if kind in ml.INTEGRATION else int(i % 2)
+            out.append(dict(t='perm_mm', kind=kind, L=[2] * nlead, K=3 + (i // 6) % 2, D=3, N=int(rng.integers(16, 24)), wca=(-1,),
+                            iterations=[1, 2, 3][i % 3], seed=int(rng.integers(1 << 30)), sam=False, saliency=False, regime='regular',
+                            empty_class=int(i % 2)))
+        # more long cWMM runs on overlapping classes (label dependent stopping rules show in a minority of runs only)
+        for i in range(12 if q else 60):
+            out.append(dict(t='perm_mm', kind='cwmm', L=[], K=3, D=3, N=int(rng.integers(36, 60)), wca=(-1,), iterations=20,
+                            seed=int(rng.integers(1 << 30)), sam=False, saliency=False, regime='overlap',
+                            spread=[0.5, 0.35, 0.7, 0.45][i % 4]))
         # boolean / integer initial masks that are not exact partitions
         for i in range(7 if q else 42):
             kind = ml.KINDS[i % 7]
@@ -195,6 +207,13 @@ def _gain_mm(case):
         # history: the trainer used for run B has fitted other data before
         call(ml.fit, kind, data, init, 1, opts, trainer=trainer_b)
     ma, ea = call(ml.fit, kind, data, init, case['iterations'], opts)
+    if ((case['seed'] // 3) % 2 or (kind in ml.INTEGRATION and case['seed'] % 2)) and not single:
+        # run B gets its observations as a permuted-axes view of a (D, ..., N) buffer (how STFT code usually hands them over)
+        yv = data_b['y']
+        if (case['seed'] // 2) % 2 and kind not in ml.INTEGRATION:
+            data_b = dict(data_b, y=np.ascontiguousarray(np.moveaxis(yv, -1, 0)).transpose(*range(1, yv.ndim), 0))
+        else:
+            data_b = dict(data_b, y=np.asfortranarray(yv))       # e.g. a (D, T, F) STFT seen through .transpose(2, 1, 0)
     mb, eb = call(ml.fit, kind, data_b, init, case['iterations'], opts, trainer=trainer_b)
     fp = f't=gain_mm;model={kind};wca={case["wca"]};reuse={case.get("reuse")};dim_given={case.get("dim_given")};single={single}'
     key = f'gain:{case["seed"]}'
@@ -219,6 +238,22 @@ def _gain_mm(case):
                            slack=2048 if kind == 'cbmm' else (1024 if single else 256),
                            fine=0 if single else (-8 if kind == 'cbmm' else -22),
                            raw=None if (pa is None or pb is None or single) else (rawA, rawB))]
+    if pa is not None and not single:
+        # the SAME fitted model evaluated on the original and on the scaled observations (no solver in between: the posteriors
+        # agree to rounding), also with the scaled observations handed over as a transposed view / Fortran-ordered array
+        yb = data_b['y']
+        lay = ['C', 'view', 'F'][case['seed'] % 3] if kind not in ml.INTEGRATION else ['F', 'view'][case['seed'] % 2]
+        if lay == 'view':
+            yb = np.ascontiguousarray(np.moveaxis(yb, -1, 0)).transpose(*range(1, yb.ndim), 0)
+        elif lay == 'F':
+            yb = np.asfortranarray(yb)
+        pa2, e6 = call(ml.predict, kind, ma, dict(data_b, y=yb))
+        if pa2 is not None:
+            recs.append(ml.twin_record('same', [ml._field('posterior', pa)], [ml._field('posterior', pa2)], kind=kind, wca=case['wca'],
+                                       exc=e6, fp=fp + f';predict_only;layout={lay}', key=key + ':po', slack=256, fine=-26,
+                                       raw=([np.asarray(pa)], [np.asarray(pa2)])))
+        else:
+            recs.append(ml.twin_record('same', None, None, kind=kind, wca=case['wca'], exc=e6, fp=fp + f';predict_only;layout={lay}', key=key + ':po'))
     if case['seed'] % 2 and pa is not None:
         # the one-call entry point: fit_predict on the scaled data against fit + predict on the original
         pfp, e5 = call(ml.fit, kind, data_b, init, case['iterations'], opts, ml.trainer_for(kind, **tkw), True)
@@ -303,6 +338,10 @@ def _perm_mm(case):
     if regime == 'badscale' and kind == 'gmm':
         init = 0.9 * np.moveaxis(np.eye(K)[lab], -1, -2) + 0.1 / K
         init = init / init.sum(-2, keepdims=True)
+    if case.get('empty_class') is not None:
+        lab_e = rng.integers(0, K - 1, size=(*L, N))
+        lab_e = np.where(lab_e >= case['empty_class'], lab_e + 1, lab_e)       # no observation in class `empty_class`
+        init = np.moveaxis(np.eye(K)[lab_e], -1, -2).copy()
     if case.get('init_dtype'):
         # hard masks that are not a partition: overlapping classes and observations without any class, given as bool / int
         hard = rng.random((*L, K, N)) < 0.45
